@@ -431,6 +431,10 @@ theorem C08_brackets_compose (prog : Prog) (s : Store) (h : prog.disciplined wat
 theorem C08_brackets_after_leaks :
     (withBracket .after "os.cwd" 7 (fun s => (.raised, s)) (fun _ => 0)).2 "os.cwd" = 7 := by decide
 
+/-- what restoring a value recorded elsewhere does (seed C08-B: `chdir = path.cwd`): the variable is not what it was -/
+theorem C08_brackets_wrong_value_leaks :
+    (withBracket .wrong "os.cwd" 7 (fun s => (.ok, s)) (fun _ => 5)).2 "os.cwd" ≠ 5 := by decide
+
 /-! ## regression: what sharing below tuples did (finding F11, repaired) -/
 
 /-- the policy before fix 1958065: tuples returned as they are -/
